@@ -170,11 +170,11 @@ Theorem C01_generic_wf : forall (T : Type) (K : kops T) (p : profile) (meth : me
   (forall a b c, k_ltb K a b = true -> k_ltb K b c = true -> k_ltb K a c = true) ->
   (forall a b c, k_ltb K a b = false -> k_ltb K b c = false -> k_ltb K a c = false) ->
   (forall a, k_eqb K a a = true) ->
-  (forall va vb md sa sb sx, k_ltb K va (k_max K) = true -> k_ltb K vb (k_max K) = true -> k_ltb K md (k_max K) = true ->
-     k_ltb K (k_upd K va vb md sa sb sx) (k_max K) = true) ->
+  (forall va vb md sa sb sx, k_ltb K va (k_inf K) = true -> k_ltb K vb (k_inf K) = true -> k_ltb K md (k_inf K) = true ->
+     k_ltb K (k_upd K va vb md sa sb sx) (k_inf K) = true) ->
   forall s d (m : list T) (n : N),
   (n < two32)%N -> wf_shape n (N.of_nat (length m)) ->
-  Forall (fun v => k_ltb K v (k_max K) = true) (square_all K m) ->
+  Forall (fun v => k_ltb K v (k_inf K) = true) (square_all K m) ->
   (exists s' d' m', generic_with K p meth s d m n = Ok (s', d', m') /\ wf_dend (d_obs d') (d_steps d'))
   \/ generic_with K p meth s d m n = Panic PNaN.
 Proof. exact generic_total_wf. Qed.
